@@ -32,10 +32,35 @@ def log(*a):
 _built = {}
 
 
+def _harness_dir():
+    """/verif/harness, or (VERIF_REPO set: background exploration against a snapshot of the repository) a private
+    copy of it whose path dependency points at that snapshot.  Registered checks never set VERIF_REPO."""
+    repo = os.environ.get("VERIF_REPO")
+    if not repo or os.path.abspath(repo) == "/repo":
+        return HARNESS
+    d = os.path.join(WORK, "harness-" + hashlib.md5(os.path.abspath(repo).encode()).hexdigest()[:8])
+    if not os.path.exists(os.path.join(d, "Cargo.toml")):
+        os.makedirs(d, exist_ok=True)
+        for name in ("src", ".cargo", "Cargo.lock"):
+            src = os.path.join(HARNESS, name)
+            dst = os.path.join(d, name)
+            if os.path.isdir(src):
+                shutil.copytree(src, dst, dirs_exist_ok=True)
+            else:
+                shutil.copy(src, dst)
+        with open(os.path.join(HARNESS, "Cargo.toml")) as f:
+            toml = f.read().replace('path = "/repo"', 'path = "%s"' % os.path.abspath(repo))
+        with open(os.path.join(d, "Cargo.toml"), "w") as f:
+            f.write(toml)
+    return d
+
+
 def build_harness(profile="dev"):
     """cargo build of the harness against /repo's current working tree (path dependency)."""
     if profile in _built:
         return _built[profile]
+    global HARNESS
+    HARNESS = _harness_dir()
     cmd = ["cargo", "build", "--offline", "--quiet"]
     if profile == "release":
         cmd.append("--release")
